@@ -155,8 +155,8 @@ type Explorer struct {
 	findings map[string]Finding
 	stats    Stats
 	samples  [][]string
-	ConfWant int          // number of traces to keep for the conformance leg
-	confCand [][]string   // [root, labels...]
+	ConfWant int        // number of traces to keep for the conformance leg
+	confCand [][]string // [root, labels...]
 	subtree  int
 	root     string
 	trace    []string
@@ -676,7 +676,6 @@ func Replay(w *world.World, sc *Scenario, rootName string, labels []string, log 
 	}
 	return out
 }
-
 
 // EnabledAfter lists the labels enabled after replaying the trace (debug aid for writing traces by hand).
 func EnabledAfter(w *world.World, sc *Scenario, rootName string, labels []string) []string {
